@@ -1,5 +1,8 @@
 import ScrutModel.Lemmas.Glob
 import ScrutModel.Lemmas.RegexWrap
+import ScrutModel.Lemmas.WildLoop
+import ScrutModel.Lemmas.GlobCramEq
+import ScrutModel.Lemmas.RegexCleanup
 /-!
 # C04 — Each expectation kind matches exactly the lines the documentation says
 
@@ -20,11 +23,14 @@ Hypotheses, all explicit:
 * `IsLine line`: no newline except possibly the last character (what `split_at_newline` yields).
   The rules strip *all* trailing newlines, the documentation speaks of *the* final newline:
   without `IsLine` the statements are false (`C04_glob_unguarded_fails_on_witness`).
-* regex: the three Cram-compat clean-up passes of `RegexRule::make` and the regex crate's
-  syntax/engine are not modelled; `e` ranges over the AST `RE`.
+* regex: the regex crate's syntax/engine is not modelled; in the whole-line theorems `e` ranges over
+  the AST `RE`. The three Cram-compat clean-up passes of `RegexRule::make` are modelled on the
+  expression *text* (`Model/RegexCleanup.lean`, `regexClean`): `C04_cleanup_identity` says which
+  expressions reach the compiler exactly as written; for the others the passes can change the
+  meaning of a valid regex (open findings, `C04_cleanup_*_witness`).
 -/
 namespace Scrut.Props.C04
-open Scrut.Glob Scrut.Regex
+open Scrut.Glob Scrut.Regex Scrut.RegexCleanup
 
 -- STRING KINDS: merged from Lemmas/RulesStr.lean
 -- (the theorems for `equal`, `no-eol` and `escaped` and the escape decoder are added here)
@@ -36,6 +42,17 @@ open Scrut.Glob Scrut.Regex
 patterns and all texts -/
 theorem C04_glob_iff (p s : List Char) : globMatch p s = true ↔ GlobRel p s :=
   globMatch_iff p s
+
+/-- the algorithm the wildmatch crate actually runs — its iterative loop with one backtrack point,
+transliterated as `wildLoop`, started by `wildMatch` with the fuel `wildFuel` — never runs out of
+fuel and returns exactly `globMatch`, for all patterns and texts -/
+theorem C04_wildmatch_is_glob (p s : List Char) : wildMatch p s = some (globMatch p s) :=
+  wildMatch_eq p s
+
+/-- hence the crate's loop accepts exactly the documented relation -/
+theorem C04_wildmatch_iff (p s : List Char) : wildMatch p s = some true ↔ GlobRel p s := by
+  rw [wildMatch_eq, ← globMatch_iff]
+  simp
 
 /-- **C04 (glob)**: a line matches a `glob` expectation iff the whole line, final newline ignored,
 is an instance of the pattern.
@@ -76,6 +93,11 @@ theorem C04_cram_glob_line_partial (e line : List Char) (h : IsLine line) :
   rw [trimNewlines_of_isLine h]
   exact cramMatch_iff _ _
 
+/-- without a backslash in the pattern the Cram-compat glob is the plain glob -/
+theorem C04_cram_glob_is_glob (e line : List Char) (he : '\\' ∉ e) (hl : IsLine line) :
+    cramRuleMatches e line = globRuleMatches e line :=
+  cramRule_eq_globRule e line he hl
+
 /-! ## regex -/
 
 /-- **C04 (regex), whole line**: searching for `^(?:e)$` anywhere in `s` succeeds iff `e` matches
@@ -111,6 +133,33 @@ theorem C04_old_wrap_fails_on_witness :
     ¬ searchMatch (wrap (.alt (.chr 'a') (.chr 'b'))) ['a', 'x', 'x', 'x'] :=
   oldWrap_witness
 
+/-! ## regex: the clean-up passes in front of the wrap -/
+
+/-- **clean-up is the identity on plain expressions**: no `{ } [ ]`, every backslash followed by a
+character after which it is kept (`[ ] { } ( ) | ? * + - . ^ $ \`, ASCII letters) or last, no `<<<<`.
+For these the compiled pattern is `^(?:e)$` for exactly the text the user wrote, so
+`C04_regex_whole_line` speaks about the user's expression. -/
+theorem C04_cleanup_identity (e : List Char) (h : plain e = true) : regexClean e = e :=
+  regexClean_id e h
+
+/-- open finding `C04:regex-cleanup-changes-valid-regex` on the model: `[a]]` (class `a`, then a
+literal `]`) is compiled as `[a\]]` (class of `a` and `]`) -/
+theorem C04_cleanup_bracket_witness :
+    regexClean ['[', 'a', ']', ']'] = ['[', 'a', '\\', ']', ']'] := by decide
+
+/-- open finding `C04:regex-valid-regex-rejected` on the model: `[a-]]` becomes `[a-\]]`, an
+invalid range -/
+theorem C04_cleanup_range_witness :
+    regexClean ['[', 'a', '-', ']', ']'] = ['[', 'a', '-', '\\', ']', ']'] := by decide
+
+/-- same two classes, other root cause (pass 2.3 restores *every* `<<<<…>>>>`, not only the ones
+pass 2.1 produced): the literal text `x<<<<1>>>>` becomes the quantifier `x{1}`, and `<<<<a>>>>`
+becomes `{a}`, which does not compile -/
+theorem C04_cleanup_angle_witness :
+    regexClean ['x', '<', '<', '<', '<', '1', '>', '>', '>', '>'] = ['x', '{', '1', '}'] ∧
+    regexClean ['<', '<', '<', '<', 'a', '>', '>', '>', '>'] = ['{', 'a', '}'] := by
+  constructor <;> decide
+
 /-! ## Non-vacuity -/
 
 example : IsLine ['a', 'b', '\n'] := by decide
@@ -123,5 +172,9 @@ example : cramRuleMatches ['a', '\\', '*'] ['a', 'b', '\n'] = false := by decide
 example : regexRuleMatches (.alt (.chr 'a') (.chr 'b')) ['b', '\n'] = true := by decide
 example : regexRuleMatches (.alt (.chr 'a') (.chr 'b')) ['a', 'x', 'x', 'x', '\n'] = false := by decide
 example : bolFirst (.chr 'a') = .seq .bol (.chr 'a') := rfl
+example : plain ['a', '|', 'b', '\\', '.', '(', '?', ':', 'c', ')', '*'] = true := by decide
+example : plain ['a', '\\', '_'] = false := by decide
+example : regexClean ['a', '{', '3', '}', '{', 'x', '}'] = ['a', '{', '3', '}', '\\', '{', 'x', '\\', '}'] := by decide
+example : wildMatch ['a', '*', '*', '?'] ['a', 'x', 'y'] = some true := by decide
 
 end Scrut.Props.C04
